@@ -26,9 +26,14 @@ VARIABLES
     failed,   \* a guard failed in the current program: skip to the next Reset
     aux,      \* [exh: the next GCEnd answers an exhaustive user request; grid: inside the C03 argument
               \*  grid; lastUsed: used pages at the end of the previous C09 cycle (-1: none); oom: OOM count]
-    stats     \* counters for evidence (not constrained)
+    stats,    \* counters for evidence (not constrained)
+    ext       \* extension point: a record owned by modules that EXTEND this one (Trace_RefProc,
+              \* Trace_GenRemset, ...). HeapTrace only reads ext.keep (ids whose model entry must
+              \* survive a collection although they are not reachable from the roots, e.g. referents
+              \* of registered weak references, finalizable objects); no action of this module
+              \* constrains ext' - TNext does (UNCHANGED), extensions define their own next-state.
 
-vars == <<l, cfg, objs, roots, ivl, imm, pinned, bound, failed, aux, stats>>
+vars == <<l, cfg, objs, roots, ivl, imm, pinned, bound, failed, aux, stats, ext>>
 
 Null == 0
 
@@ -194,12 +199,13 @@ GCEndOK(e) ==
             "vo" \in DOMAIN e.nodes[i] => e.nodes[i].vo)
 
 DoGCEnd(e) ==
-    LET keep == NodeIds(e) \cup DOMAIN imm
+    LET keep == NodeIds(e) \cup DOMAIN imm \cup (ext.keep \cap DOMAIN objs)
         newA == [id \in NodeIds(e) |-> (CHOOSE i \in DOMAIN e.nodes : e.nodes[i].id = id)]
     IN
     /\ objs' = [id \in keep |-> IF id \in NodeIds(e)
                                 THEN [objs[id] EXCEPT !.a = e.nodes[newA[id]].a] ELSE objs[id]]
-    /\ ivl' = [id \in keep |->
+    \* placement stays known for survivors and never-collected objects only
+    /\ ivl' = [id \in NodeIds(e) \cup DOMAIN imm |->
                  IF id \in NodeIds(e)
                  THEN LET n == e.nodes[newA[id]] IN Ivl(SubW(n.a, RefOffW), n.sz)
                  ELSE ivl[id]]
@@ -287,10 +293,12 @@ TInit ==
     /\ pinned = {} /\ bound = {} /\ failed = FALSE
     /\ aux = [exh |-> FALSE, grid |-> FALSE, lastUsed |-> -1, oom |-> 0]
     /\ stats = [programs |-> 0, allocs |-> 0, writes |-> 0, gcs |-> 0, moved |-> 0, survivors |-> 0]
+    /\ ext = [keep |-> {}]
 
 TNext == /\ l <= Len(Rec)
          /\ l' = l + 1
          /\ Step(Rec[l])
+         /\ UNCHANGED ext
 
 TraceSpec == TInit /\ [][TNext]_vars
 
